@@ -445,6 +445,114 @@ func runStampCtrl(c *vh.Ctx, base *hsms.ControlMessage) {
 	}
 }
 
+// ---- siblings through the frame-buffer builder ----
+
+// freshBase returns a data message that has never been framed, serialised or decoded, of the
+// given provenance (constructed by NewDataMessage / decoded from a frame).
+func freshBase(c *vh.Ctx, decoded bool) (*hsms.DataMessage, []byte) {
+	r := c.Rng
+	var sb [4]byte
+	binary.BigEndian.PutUint32(sb[:], r.Uint32())
+	fn := byte(r.Intn(256))
+	w := r.Intn(3) == 0 && fn%2 == 1
+	var it secs2.Item
+	if r.Intn(5) != 0 { // also the empty body (single-buffer path)
+		it = fr.RandItem(r, 2)
+	}
+	m, err := hsms.NewDataMessage(byte(r.Intn(128)), fn, w, uint16(r.Intn(65536)), sb, it)
+	if err != nil {
+		panic(err)
+	}
+	if !decoded {
+		m2, _ := hsms.NewDataMessage(m.Stream(), fn, w, m.SessionID(), sb, it)
+		return m2, m.ToBytes()
+	}
+	frame := m.ToBytes()
+	d, err := hsms.DecodeHSMSMessage(frame)
+	if err != nil {
+		panic(err)
+	}
+	dm, _ := d.ToDataMessage()
+	return dm, frame
+}
+
+// siblingsOf applies a re-stamp chain: result[0] is base, result[i] the copy after op i.
+func siblingsOf(base *hsms.DataMessage, ops []stampOp) []*hsms.DataMessage {
+	sibs := []*hsms.DataMessage{base}
+	cur := base
+	for _, o := range ops {
+		switch o.kind {
+		case 0:
+			cur = cur.WithSessionID(o.sid)
+		case 1:
+			cur = cur.WithSystemBytes(o.sb)
+		default:
+			cur = cur.WithID(o.id)
+		}
+		sibs = append(sibs, cur)
+	}
+	return sibs
+}
+
+// framingOrder: forward, reverse, or a random permutation (each sibling may be framed twice).
+func framingOrder(c *vh.Ctx, n int) []int {
+	r := c.Rng
+	ord := make([]int, n)
+	switch r.Intn(3) {
+	case 0:
+		for i := range ord {
+			ord[i] = i
+		}
+	case 1:
+		for i := range ord {
+			ord[i] = n - 1 - i
+		}
+	default:
+		copy(ord, r.Perm(n))
+	}
+	if r.Intn(2) == 0 {
+		ord = append(ord, r.Intn(n))
+	}
+	return ord
+}
+
+// runFamily frames a message and its re-stamped siblings (one shared body and decode state)
+// through the real buildFrameBuffers in some order: what would be written for each sibling must
+// be that sibling's ToBytes(), whichever of them was framed first.
+func runFamily(c *vh.Ctx) {
+	r := c.Rng
+	decoded := r.Intn(2) == 0
+	base, baseFrame := freshBase(c, decoded)
+	ops := randOps(c, true)
+	for len(ops) == 0 {
+		ops = randOps(c, true)
+	}
+	sibs := siblingsOf(base, ops)
+	names := make([]string, len(ops))
+	for i, o := range ops {
+		names[i] = o.String()
+	}
+	ord := framingOrder(c, len(sibs))
+	got := make([][]byte, len(sibs))
+	for _, i := range ord {
+		got[i] = bytes.Join(hsms.VerifFrameBuffers(sibs[i]), nil) // framed BEFORE any ToBytes of this family
+	}
+	hexes := make([]string, len(sibs))
+	for i := range sibs {
+		hexes[i] = fr.Hex(got[i])
+	}
+	line := fmt.Sprintf("Q %s %d %s | %s", fr.Hex(baseFrame), len(ops), strings.Join(names, " "), strings.Join(hexes, " "))
+	c.Case(line, line, true)
+	c.Count(fmt.Sprintf("Q/decoded=%v/first=%d", decoded, ord[0]))
+	for _, i := range ord {
+		if !bytes.Equal(got[i], sibs[i].ToBytes()) {
+			c.Fail(fmt.Sprintf("frame buffers of re-stamped sibling %d differ from its ToBytes() (framing order %v, base %s)", i, ord,
+				map[bool]string{true: "decoded from a frame", false: "constructed"}[decoded]), line)
+			break
+		}
+	}
+}
+
 // ---- Derive().Build() ----
 
 func runDerive(c *vh.Ctx, base *hsms.DataMessage) {
@@ -652,10 +760,12 @@ func main() {
 				}
 				runStampCtrl(c, base)
 			}
-		case k < 18:
+		case k < 17:
 			if len(made) > 0 {
 				runDerive(c, made[r.Intn(len(made))])
 			}
+		case k < 19:
+			runFamily(c)
 		default:
 			runFromHeader(c)
 		}
